@@ -17,6 +17,8 @@ pub fn main() {
         "shutdown" => crate::e2e::shutdown::run(&args),
         "faults" => crate::e2e::faults::run(&args),
         "tlsworld" => crate::e2e::tlsworld::run(&args),
+        "sniff" => crate::sniff::run(&args),
+        "iolab" => crate::iolab::run(&args),
         "layers" if args.replay.is_some() => crate::reqsweep::replay(&args, "layers"),
         "sni" if args.replay.is_some() => crate::reqsweep::replay(&args, "sni"),
         "layers" => crate::reqsweep::run_layers(&args),
